@@ -59,6 +59,8 @@ def build(it):
         meta['component'] = it['comp']
     x, y, r = [v / Q for v in it['x']], [v / Q for v in it['y']], [v / Q for v in it['r']]
     ang = (it['ang'] / Q) * u.deg
+    # the angle is handed over in different units (the table must hold one consistent ROTANG unit)
+    ang = [ang, ang.to(u.rad), ang.to(u.arcmin)][(int(it['x'][0]) + len(it['r'])) % 3]
     c = PixCoord(x[0], y[0])
     if cls == 'point':
         return R.PointPixelRegion(c, meta=meta)
@@ -101,7 +103,7 @@ def project(reg):
         r = ints([getattr(reg, n) for n in names])
     ang = 0
     if hasattr(reg, 'angle'):
-        a = float(reg.angle.to_value('deg')) * Q
+        a = round(float(reg.angle.to_value('deg')) * Q, 6)
         ang = int(a) if a == int(a) else a
     inc = reg.meta.get('include', 'absent')
     inc = 'absent' if inc == 'absent' else ('0' if inc in (0, False) else 'T')
@@ -124,7 +126,8 @@ def table_rows(tbl):
                 out.append(int(f) if f == int(f) else f)
             return out
         rot = np.atleast_1d(row['ROTANG'])
-        rot = float(getattr(rot, 'value', rot)[0]) * Q
+        rot = float(rot.to_value('deg')[0] if hasattr(rot, 'to_value') else rot[0]) * Q
+        rot = round(rot, 6)
         rows.append({'shape': {'excl': excl, 'name': shape[1:] if excl else shape}, 'x': col('X'), 'y': col('Y'), 'r': col('R'),
                      'rotang': int(rot) if rot == int(rot) else rot, 'comp': int(row['COMPONENT']) if 'COMPONENT' in tbl.colnames else -1})
     return rows
